@@ -219,6 +219,7 @@ func RunC17(c *Ctx, r *Report) {
 		}
 	}
 
+	c.libraryObjectRule(r, prefix+"key-objects-are-library-objects")
 	// rule 2
 	rule2 := prefix + "cipher.receiver-pure"
 	r.Rule(rule2, "no IKECrypto method implementation stores to a field of its receiver type, to package state, or to non-fresh memory other than byte buffers it was handed", 2)
